@@ -16,7 +16,7 @@
 From Coq Require Import String Ascii List Bool ZArith Permutation.
 From LC Require Import Common NumDefs XmlDefs EntTreeDefs PrintDefs LoadDefs RoundtripSpec Load1xDefs To1xDefs
      RoundtripEncProofs TransformSimProofs TransformProofs TransformHoistProofs Load1xProofs Drop1xSpec Drop1xProofs
-     MathNsDefs MathNsProofs TransformImageProofs.
+     MathNsDefs MathNsProofs TransformImageProofs TransformImageMixedProofs.
 From LCGen Require RuleTable.
 Import ListNotations.
 Local Open Scope string_scope.
@@ -264,6 +264,34 @@ Example C14_image_pure_needed :
   /\ map (fun c => length (c_resets (shell c))) (m_comps (document_image E0 true true true x)) = [0].
 Proof. repeat split; vm_compute; reflexivity. Qed.
 Print Assumptions C14_image_pure_needed.
+
+(** * ... WITHOUT purity hypothesis: for EVERY CellML 1.0 / 1.1 document tree, also one that holds CellML 2.0-namespaced
+      elements.  What happens to them is part of the image: a 2.0 reset inside a 1.x component is LOADED AS IS (loadReset,
+      against the variables that precede it: [doc_resets]); a 2.0 encapsulation child of the model gives the model's
+      encapsulation id (last one wins: [doc_encid]), an ENCAPSULATION_ELEMENT error per other attribute, an ENCAPSULATION_CHILD
+      warning when empty, and otherwise COUNTS AS AN ENCAPSULATION NODE next to the 1.x groups ([doc_encs_g]); a 2.0 connection
+      child COUNTS AS A CONNECTION next to the 1.x ones ([doc_conns_g]); everything else as in the pure case *)
+Theorem C14_transform_preserves_everything_else_any : forall E fx fi fd x,
+  is_cellml20 "model" x = false -> is_1x "model" x = true ->
+  load1x E fx fi fd false x = (document_image_g E fx fi fd x, document_issues_g E fx fi fd x).
+Proof. intros. now apply TransformImageMixedProofs.transform_document_image_g. Qed.
+Print Assumptions C14_transform_preserves_everything_else_any.
+
+(** non-vacuity: a 1.0 model holding a 2.0 reset, a 2.0 encapsulation with an id and a 2.0 connection: the reset is in the
+    image, the encapsulation id is the model's, the connection is read (it has no map_components: one ERROR without rule) *)
+Example C14_image_mixed_example :
+  let x := Elem CELLML_1_0_NS "model" [at_ "name" "m"]
+                [Elem CELLML_1_0_NS "component" [at_ "name" "c"]
+                      [Elem CELLML_1_0_NS "variable" [at_ "name" "v"; at_ "units" "second"] [];
+                       Elem CELLML_2_0_NS "reset" [at_ "variable" "v"; at_ "test_variable" "v"; at_ "order" "1"] []];
+                 Elem CELLML_2_0_NS "encapsulation" [at_ "id" "e"] [];
+                 Elem CELLML_2_0_NS "connection" [at_ "component_1" "c"] []] in
+  map (fun c => length (c_resets (shell c))) (m_comps (document_image_g E0 true true true x)) = [1]
+  /\ m_encid (document_image_g E0 true true true x) = "e"
+  /\ document_issues_g E0 true true true x
+     = [msg; err "RESET_TEST_VALUE_CHILD"; err "RESET_RESET_VALUE_CHILD"; warn "ENCAPSULATION_CHILD"; (LError, "UNDEFINED")].
+Proof. repeat split; vm_compute; reflexivity. Qed.
+Print Assumptions C14_image_mixed_example.
 
 (** * the declaration layer (MathNsDefs: elements with prefixes and xmlns declarations, as libxml2 holds them): for
       EVERY math element of a 1.x component — whatever prefix names the legacy namespace, wherever it is declared (on math,
